@@ -101,6 +101,24 @@ Fixpoint bm_contains_aux (fuel : nat) (data : bytes) (w : N) (octet : nat) (mask
 Definition bm_contains (data : bytes) (t : N) : outcome bool :=
   let '(w, o, m) := split_rtype t in bm_contains_aux (S (length data)) data w o m.
 
+(* RtypeBitmap::from_octets: error 10 ShortInput, 11 BadRtypeBitmap *)
+Fixpoint bm_check (fuel : nat) (data : bytes) : outcome unit :=
+  match fuel with
+  | O => OutOfFuel
+  | S fuel' =>
+      match data with
+      | [] => Ok tt
+      | [_] => Err 10
+      | _ :: l :: _ =>
+          let len := l + bm_parse_header in
+          if len =? bm_parse_empty_chunk then Err 11
+          else if bm_parse_max_chunk <? len then Err 11
+          else if (length data <? N.to_nat len)%nat then Err 10
+          else bm_check fuel' (skipn (N.to_nat len) data)
+      end
+  end.
+Definition bm_from_octets (data : bytes) : outcome unit := bm_check (S (length data)) data.
+
 (* ------------------------------------------------- names, records, groups *)
 
 Definition rec := (name * N)%type.
@@ -493,6 +511,29 @@ Definition sr_sort (l : list srec) : list srec := fold_right sr_insert [] l.
 (* SortedRecords::from / extend *)
 Definition sorted_records (l : list srec) : list srec := sr_dedup (sr_sort l).
 
+(* the same with the class, which Record::canonical_cmp compares first and
+   Record::eq compares as well *)
+Definition crec := (N * srec)%type.
+Definition cr_cmp (a b : crec) : comparison :=
+  if record_cmp_class_first
+  then match fst a ?= fst b with Eq => sr_cmp (snd a) (snd b) | c => c end
+  else match sr_cmp (snd a) (snd b) with Eq => fst a ?= fst b | c => c end.
+Definition cr_eqb (a b : crec) : bool := (fst a =? fst b) && srec_eqb (snd a) (snd b).
+Fixpoint cr_insert (x : crec) (l : list crec) : list crec :=
+  match l with
+  | [] => [x]
+  | y :: r => match cr_cmp x y with Gt => y :: cr_insert x r | _ => x :: l end
+  end.
+Definition cr_sort (l : list crec) : list crec := fold_right cr_insert [] l.
+Fixpoint cr_dedup_from (prev : crec) (l : list crec) : list crec :=
+  match l with
+  | [] => []
+  | x :: r => if cr_eqb x prev then cr_dedup_from prev r else x :: cr_dedup_from x r
+  end.
+Definition cr_dedup (l : list crec) : list crec :=
+  match l with [] => [] | x :: r => x :: cr_dedup_from x r end.
+Definition sorted_records_c (l : list crec) : list crec := cr_dedup (cr_sort l).
+
 (* ------------------------------------------ TTL, class and Rrset::new *)
 (* The same generators over records that also carry class, TTL and (for a
    SOA) the MINIMUM field.  Rrset::new panics (`expect("TTLs should be the
@@ -542,6 +583,10 @@ Fixpoint truns (l : list trec) : list (list trec) :=
 Definition ttls_ok (first : trec) (run : list trec) : bool :=
   (t_type first =? rrsig_ttl_exempt) || forallb (fun r => t_ttl r =? t_ttl first) run.
 
+(* the expect() in Rrset::new *)
+Definition ttl_check (first : trec) (run : list trec) : bool :=
+  rrset_new_expects_ttls && negb (ttls_ok first run).
+
 Definition is_some {A} (o : option A) : bool := match o with Some _ => true | None => false end.
 
 (* state: Some (upd soa_record) once a SOA RRset was seen *)
@@ -553,7 +598,7 @@ Fixpoint trrset_loop {S : Type} (upd : trec -> S) (at_cut : bool) (cut_types : l
       match run with
       | [] => trrset_loop upd at_cut cut_types runs' bm st
       | f :: _ =>
-          if negb (ttls_ok f run) then Panic 7
+          if ttl_check f run then Panic 7
           else
             let t := t_type f in
             let bm' := if negb at_cut || memN t cut_types then bm_add bm t else bm in
@@ -792,13 +837,21 @@ Definition bm_iter (data : bytes) : outcome (list N) :=
   do s <- it_new data; it_collect (S (8 * length data)) (8 * length data) s.
 
 (* ------------------------------------------------ executable entry points *)
-Definition c13_nsec3_t (apex : name) (c : n3cfg) (m : pmode) (z : list trec) : outcome n3out :=
-  generate_nsec3s_t sha1 apex c m z.
+(* hash algorithm, flags, iterations, salt: every NSEC3 record gets the
+   configured values (mk_nsec3's arguments), the NSEC3PARAM record is
+   Record::new(apex_owner, IN, nsec3param_ttl, config.params.clone()) *)
+Definition n3_params (c : n3cfg) : N * N * N * bytes := (c_alg c, c_flags c, c_iters c, c_salt c).
+Definition nsec3param_record (apex : name) (c : n3cfg) (o : n3out) : name * N * N * (N * N * N * bytes) :=
+  (apex, o_class o, o_param_ttl o, n3_params c).
+Definition c13_nsec3_t (apex : name) (c : n3cfg) (m : pmode) (z : list trec)
+  : outcome (n3out * (N * N * N * bytes) * (name * N * N * (N * N * N * bytes))) :=
+  do o <- generate_nsec3s_t sha1 apex c m z; Ok (o, n3_params c, nsec3param_record apex c o).
+Definition c13_bm_parse (data : bytes) : outcome unit := bm_from_octets data.
 Definition c13_bm_iter (ts : list N) : outcome (list N) := bm_iter (bm_finalize (bm_adds [] ts)).
 Definition c13_nsec_t (apex : name) (dnskey : bool) (z : list trec) : outcome (list tnsec) :=
   generate_nsecs_t apex dnskey z.
 Definition c13_dedup (l : list srec) : list rec := strip (sr_dedup l).
-Definition c13_sorted_records (l : list srec) : list srec := sorted_records l.
+Definition c13_sorted_records (l : list crec) : list crec := sorted_records_c l.
 Definition c13_bitmap (ts probes : list N) : bytes * list (outcome bool) :=
   let w := bm_finalize (bm_adds [] ts) in (w, map (bm_contains w) probes).
 Definition c13_nsec (apex : name) (dnskey : bool) (z : list rec) : outcome (list nsec) :=
